@@ -1,0 +1,109 @@
+//go:build verif
+
+package tls
+
+import (
+	"bytes"
+
+	"github.com/refraction-networking/utls/internal/quicvarint"
+	"github.com/refraction-networking/utls/internal/quicvarint/protocol"
+)
+
+// Export shim for the verification harness (build tag "verif" only): thin wrappers
+// over unexported identifiers that some properties name.  No behaviour of its own.
+
+// VerifPRNG wraps the unexported seeded prng.
+type VerifPRNG struct{ p *prng }
+
+func VerifNewPRNG(seed *PRNGSeed) (*VerifPRNG, error) {
+	p, err := newPRNGWithSeed(seed)
+	if err != nil {
+		return nil, err
+	}
+	return &VerifPRNG{p}, nil
+}
+
+func VerifNewSaltedPRNG(seed *PRNGSeed, salt string) (*VerifPRNG, error) {
+	p, err := newPRNGWithSaltedSeed(seed, salt)
+	if err != nil {
+		return nil, err
+	}
+	return &VerifPRNG{p}, nil
+}
+
+func VerifSaltedSeed(seed *PRNGSeed, salt string) (*PRNGSeed, error) {
+	return newSaltedPRNGSeed(seed, salt)
+}
+
+func (v *VerifPRNG) Read(b []byte) (int, error)      { return v.p.Read(b) }
+func (v *VerifPRNG) Uint64() uint64                  { return v.p.Uint64() }
+func (v *VerifPRNG) Int63() int64                    { return v.p.Int63() }
+func (v *VerifPRNG) Intn(n int) int                  { return v.p.Intn(n) }
+func (v *VerifPRNG) Int63n(n int64) int64            { return v.p.Int63n(n) }
+func (v *VerifPRNG) Perm(n int) []int                { return v.p.Perm(n) }
+func (v *VerifPRNG) Range(min, max int) int          { return v.p.Range(min, max) }
+func (v *VerifPRNG) FlipWeightedCoin(w float64) bool { return v.p.FlipWeightedCoin(w) }
+
+// quicvarint
+
+func VerifVarintAppend(b []byte, i uint64) []byte { return quicvarint.Append(b, i) }
+func VerifVarintAppendWithLen(b []byte, i uint64, l int) []byte {
+	return quicvarint.AppendWithLen(b, i, protocol.ByteCount(l))
+}
+func VerifVarintLen(i uint64) int { return int(quicvarint.Len(i)) }
+func VerifVarintRead(b []byte) (v uint64, consumed int, err error) {
+	r := bytes.NewReader(b)
+	v, err = quicvarint.Read(r)
+	return v, len(b) - r.Len(), err
+}
+
+// private <-> public conversions (u_public.go)
+
+func VerifRoundTripClientHello(m *PubClientHelloMsg) *PubClientHelloMsg {
+	return m.getPrivatePtr().getPublicPtr()
+}
+func VerifRoundTripServerHello(m *PubServerHelloMsg) *PubServerHelloMsg {
+	return m.getPrivatePtr().getPublicPtr()
+}
+func VerifRoundTripCertReq13(m *CertificateRequestMsgTLS13) *CertificateRequestMsgTLS13 {
+	return m.toPrivate().toPublic()
+}
+func VerifRoundTripKeyShares(k []KeyShare) []KeyShare {
+	return keyShares(KeyShares(k).ToPrivate()).ToPublic()
+}
+func VerifRoundTripPskIdentities(k []PskIdentity) []PskIdentity {
+	return pskIdentities(PskIdentities(k).ToPrivate()).ToPublic()
+}
+func VerifRoundTripCipherSuite(c *PubCipherSuite) PubCipherSuite {
+	return c.getPrivatePtr().getPublicObj()
+}
+func VerifRoundTripCipherSuite13(c *PubCipherSuiteTLS13) *PubCipherSuiteTLS13 {
+	return c.toPrivate().toPublic()
+}
+func VerifRoundTripTicketKeys(k []TicketKey) []TicketKey {
+	return ticketKeys(TicketKeys(k).ToPrivate()).ToPublic()
+}
+func VerifRoundTripKeySharePrivateKeys(k *KeySharePrivateKeys) *KeySharePrivateKeys {
+	return k.ToPrivate().ToPublic()
+}
+
+// VerifMakeKeyShare builds the unexported keyShare type used by PubServerHelloMsg.
+func VerifMakeKeyShare(g CurveID, data []byte) keyShare { return keyShare{group: g, data: data} }
+func VerifKeyShareFields(k keyShare) (CurveID, []byte)  { return k.group, k.data }
+
+// VerifCipherSuite12 / 13 expose the internal suite tables as public views.
+func VerifCipherSuite12(id uint16) (PubCipherSuite, bool) {
+	c := cipherSuiteByID(id)
+	if c == nil {
+		return PubCipherSuite{}, false
+	}
+	return c.getPublicObj(), true
+}
+func VerifCipherSuite13(id uint16) *PubCipherSuiteTLS13 {
+	return cipherSuiteTLS13ByID(id).toPublic()
+}
+
+// VerifServerTicketKeys returns the server Config's current ticket keys (public view).
+func VerifServerTicketKeys(c *Config) []TicketKey {
+	return ticketKeys(c.ticketKeys(nil)).ToPublic()
+}
